@@ -379,6 +379,8 @@ def main_check(spec, argv):
             per_config[cfgname] = {"cases": res.cases - cases_before}
         for hook in spec.get("post", []):
             hook(spec, workdir, tier, seed, res, per_config)
+        if os.environ.get("VERIF_NO_GCOV") != "1" and os.path.realpath(REPO) == "/repo":
+            spec["_reach"] = gcov_reach(spec, workdir, seed, args.jobs)
     except Inconclusive as e:
         print("INCONCLUSIVE property=%s %s" % (prop, e))
         write_evidence(spec, tier, seed, res, per_config, time.time() - t0, 0, inconclusive=str(e))
@@ -464,9 +466,60 @@ def main_check(spec, argv):
     print("RESULT property=%s tier=%s held on %d cases in %d units (%d distinct signatures), configs=%s, %.1fs" % (
         prop, tier, res.cases, res.units, len(res.sigs), ",".join(configs), wall))
     if not args.keep:
-        for cfgname in configs:
+        for cfgname in list(configs) + ["gcov"]:
             shutil.rmtree(os.path.join(workdir, cfgname), ignore_errors=True)
     return 0
+
+
+def gcov_reach(spec, workdir, seed, jobs):
+    """Line/function reach of the property's anchored files, measured by running a slice of the quick workload on a
+    gcc --coverage build. Evidence only: never influences the verdict."""
+    import gzip
+    anchors = spec.get("anchor_files") or []
+    if not anchors:
+        return None
+    try:
+        exe = build(workdir, "gcov", spec["sources"], list(spec.get("extra_flags", ())) + ["-DVH_GCOV"])
+    except Inconclusive as e:
+        return {"error": str(e)[:300]}
+    bdir = os.path.join(workdir, "gcov")
+    res = RunResult()
+    run_harness(exe, os.path.join(bdir, "out"), "quick", seed, res, nshards=jobs,
+                extra_args=["--slice", str(spec.get("gcov_slice", 8))], cfgname="gcov")
+    out = {}
+    objs = sorted(glob.glob(os.path.join(bdir, "*.gcda")))
+    if not objs:
+        return {"error": "no coverage data written"}
+    r = run(["gcov", "-j", "-b"] + [os.path.basename(o) for o in objs], cwd=bdir)
+    per_file = {}
+    for jf in glob.glob(os.path.join(bdir, "*.gcov.json.gz")):
+        try:
+            with gzip.open(jf, "rt") as f:
+                data = json.load(f)
+        except (OSError, ValueError):
+            continue
+        for fe in data.get("files", []):
+            name = fe["file"]
+            rel = None
+            for a in anchors:
+                if name.endswith("/" + a) or name == a:
+                    rel = a
+            if rel is None:
+                continue
+            d = per_file.setdefault(rel, {"lines": {}, "funcs": {}})
+            for ln in fe.get("lines", []):
+                d["lines"][ln["line_number"]] = d["lines"].get(ln["line_number"], 0) + ln["count"]
+            for fn in fe.get("functions", []):
+                d["funcs"][fn["name"]] = d["funcs"].get(fn["name"], 0) + fn["execution_count"]
+    for rel, d in sorted(per_file.items()):
+        nl = len(d["lines"])
+        hit = sum(1 for c in d["lines"].values() if c > 0)
+        never = sorted(n for n, c in d["funcs"].items() if c == 0)
+        out[rel] = {"lines_instrumented": nl, "lines_executed": hit,
+                    "functions": len(d["funcs"]), "functions_executed": len(d["funcs"]) - len(never),
+                    "functions_never_called": never[:40]}
+    return {"method": "gcc --coverage build, every %dth unit of the quick workload" % spec.get("gcov_slice", 8),
+            "cases": res.cases, "files": out}
 
 
 def write_evidence(spec, tier, seed, res, per_config, wall, nviol, inconclusive=None, known=None):
@@ -502,6 +555,8 @@ def write_evidence(spec, tier, seed, res, per_config, wall, nviol, inconclusive=
         cov["exhaustive_scope"] = spec["exhaustive"][tier]
     for k, v in spec.get("extra_coverage", {}).items():
         cov[k] = v
+    if spec.get("_reach"):
+        cov["reach_of_anchored_files"] = spec["_reach"]
     if inconclusive:
         cov["inconclusive"] = inconclusive
     ev = {
